@@ -1,5 +1,6 @@
 import HydroVerif.Proto
 import HydroVerif.Model.C05
+import HydroVerif.Generated.CKernels
 open HydroVerif HydroVerif.C05
 
 /-! Line protocol of the C05 footprint models.
@@ -10,7 +11,12 @@ open HydroVerif HydroVerif.C05
                                        or `fault …` when the run ends with another fault / a negative index.
 `<extents>` = `name=n,name=n,…` (missing buffers have extent 0); `<buffers>` = `name,name,…`.
 Integer lists `[a,b,c]`; Boolean oracles as 0/1 lists; matrices `[a,b;c,d]`; `x` in a list of integer parts of
-doubles = NaN/inf. -/
+doubles = NaN/inf.
+
+`cgen <function> <scalars> <buffer>…` → `ok <value> <written buffer>…` | `oob arg<k>|loc<k> <idx>` | `div0` | `ovf`
+                                       runs the definition GENERATED from the C text (`Generated/CKernels.lean`,
+                                       `CGen.run`): scalar arguments as one list, every pointer argument as its
+                                       own list, in parameter order; uninitialised local arrays hold `CSem.driverJunk`. -/
 
 def bufTable : List (String × Buf) := [
   ("aggindex", .aggindex), ("inputs", .inputs), ("outputs", .outputs), ("iend", .iend), ("data", .data),
@@ -30,9 +36,13 @@ def bufTable : List (String × Buf) := [
   ("idxboundary", .idxboundary), ("idxok", .idxok), ("rivdata", .rivdata), ("flowpaths", .flowpaths)]
 
 def bufName (b : Buf) : String :=
-  match bufTable.find? (fun p => p.2 == b) with
-  | some p => p.1
-  | none => "?"
+  match b with
+  | .arg k => s!"arg{k}"
+  | .loc k => s!"loc{k}"
+  | _ =>
+    match bufTable.find? (fun p => p.2 == b) with
+    | some p => p.1
+    | none => "?"
 
 def bufOf? (s : String) : Option Buf := (bufTable.find? (fun p => p.1 == s)).map (·.2)
 
@@ -178,8 +188,19 @@ def needLoop (run : Ext → R Int) : Nat → EL → String
       else s!"fault oob {bufName b} {i}"
     | .error f => "fault " ++ fmtFault f
 
+def fmtCG : R (Int × List (List Int)) → String
+  | .ok (c, bs) => " ".intercalate (s!"ok {c}" :: bs.map fmtIntList)
+  | .error f => fmtFault f
+
 def handle (toks : List String) : String :=
   match toks with
+  | "cgen" :: name :: xs :: bufs =>
+    match parseIntList? xs, allSome (bufs.map parseIntList?) with
+    | some xs, some bs =>
+      match HydroVerif.CGen.run HydroVerif.CSem.driverJunk name xs bs with
+      | some r => fmtCG r
+      | none => "bad-op"
+    | _, _ => "bad-op"
   | "need" :: name :: bufs :: args =>
     match parseExt? bufs, kernel? (name :: args) with
     | some l, some run => needLoop run 100000 l
